@@ -18,7 +18,7 @@ N_THOROUGH = 15000
 EXPLANATION = ''
 
 def profiles(thorough):
-    p = Profile(nT=1, nS=1, nG=3, nC=6, nK=5, specs={"fn": 6, "trk": 1}, body_prob=0.25,
+    p = Profile(nT=1, nS=1, nG=3, nC=6, nK=5, specs={"fn": 6, "trk": 1, "ownT": 0, "ownK": 2}, body_prob=0.25,
                 len=(15, 60 if not thorough else 150),
                 w={"connfn": 12, "newK": 8, "newK0": 2, "asgKC": 6, "mvK": 6, "masgK": 6, "swapK": 5, "relK": 5, "discK": 4, "delK": 6,
                    "connectedK?": 6, "blockedK?": 2, "blockK": 2, "connected?": 8, "cpC": 4, "size?": 6, "emit": 5, "disc": 2},
